@@ -50,6 +50,8 @@ def run_rules(mod, chk):
         generic.per_trip_objects_registered(chk)
         generic.containers_not_mutated_while_iterated(chk)
         generic.flag_brackets_closed(chk)
+        generic.overrides_keep_event_priority(chk)
+        generic.waiting_loops_resample(chk)
     chk.repo.on_func = None
     return chk
 
